@@ -64,6 +64,12 @@ class AckFamily:
             ops.append({'op': 'snapshot', 'level': 'msgs'})
         if raced:
             ops += [{'op': 'advance', 'ms': I + 1}, {'op': 'tick'}, {'op': 'run'}, {'op': 'snapshot', 'level': 'msgs'}]
+        if store == 'sqlite' and rng.random() < opts.get('restart', 0.5):
+            # the engine is stopped and started again on the same database: the stored messages go on as before
+            at = rng.choice([i for i, o in enumerate(ops) if o['op'] == 'snapshot'])
+            ops[at + 1:at + 1] = [{'op': 'restart'}, {'op': 'quiesce'}, {'op': 'snapshot', 'level': 'msgs'}]
+            if rng.random() < 0.6:
+                ops += [{'op': 'advance', 'ms': I + 1}, {'op': 'tick'}, {'op': 'run'}, {'op': 'snapshot', 'level': 'msgs'}]
         rt = rng.choice([{'flavor': 'current'}, {'flavor': 'current', 'chaos': {'max_yields': 3, 'seed': rng.randrange(1, 1 << 40)}}, {'flavor': 'multi', 'workers': 2, 'chaos': {'max_yields': 2, 'seed': rng.randrange(1, 1 << 40)}}])
         if raced and rng.random() < 0.7:
             rt = {'flavor': 'multi', 'workers': 2, 'chaos': {'max_yields': 2, 'pause_us': rng.choice([20, 100, 300]), 'seed': rng.randrange(1, 1 << 40)}}
@@ -92,6 +98,7 @@ class AckFamily:
                     return w
             return None
         redelivered = collections.defaultdict(list)   # (window start) -> ids
+        restarts = 0
         # the engine decides a redelivery when it emits it; the handler runs later, from a spawned task.  "Redelivered
         # after acked" is judged on the emission: the k-th delivery record of an id is paired with its k-th emission
         emits = collections.defaultdict(collections.deque)
@@ -199,6 +206,16 @@ class AckFamily:
                             obs['c09.exhausted'] += 1
                         elif x['retry'] >= MAX:
                             x['maybe_error'] = True      # not provably due: the engine may or may not have marked it
+                elif op['op'] == 'restart':
+                    # the new engine's start-up tick can run before the client has registered its channel again: one
+                    # redelivery per restart may go to nobody (the stored retry count moves on all the same)
+                    restarts += 1
+                    obs['c09.restarts'] += 1
+                    for x in M.values():
+                        if x['status'] == 'created':
+                            x['lost_allow'] = x.get('lost_allow', 0) + 1
+                            if x['retry'] >= MAX:
+                                x['maybe_error'] = True
                 elif op['op'] == 'msg_redo':
                     for x in M.values():
                         if x['status'] == 'error' or x.get('maybe_error'):
@@ -243,6 +260,12 @@ class AckFamily:
                         if rs != x['status']:
                             out.append(V('C09', 'stored-status', f"{store}:{x['status']}->{rs}", f"message {x['desc']}: stored status {rs}, the status automaton says {x['status']} (retry {x['retry']}/{MAX})", scenario=sid))
                             x['status'] = rs if rs in ('created', 'acked', 'completed', 'error') else x['status']
+                        elif x['status'] == 'created' and 0 < r['retry_times'] - x['retry'] <= x.get('lost_allow', 0):
+                            x['lost_allow'] -= r['retry_times'] - x['retry']
+                            x['lost'] = x.get('lost', 0) + r['retry_times'] - x['retry']
+                            x['retry'] = r['retry_times']
+                            x['last'] = max(x['last'], r.get('update_time') or 0)
+                            obs['c09.redeliveries-lost-to-an-unregistered-client-after-restart'] += 1
                         elif x['status'] == 'created' and r['retry_times'] != x['retry']:
                             out.append(V('C09', 'stored-retry', f"{store}", f"message {x['desc']}: stored retry_times {r['retry_times']}, observed {x['retry']}", scenario=sid))
         for i, x in M.items():
@@ -251,6 +274,9 @@ class AckFamily:
                 by[ep].add(r)
             for ep, rs in by.items():
                 lo = 0 if ep == 0 else 1
+                holes = (max(rs) - min(rs) + 1 - len(rs)) if rs else 0
+                if rs and 0 < holes <= x.get('lost', 0) + x.get('lost_allow', 0) and not (min(rs) > lo and not x.get('maybe_redo')):
+                    continue
                 if rs and sorted(rs) != list(range(min(rs), max(rs) + 1)) or (rs and min(rs) > lo and not x.get('maybe_redo')):
                     out.append(V('C09', 'retry-arithmetic', f"{store}:gap", f"message {x['desc']}: retries delivered {sorted(rs)} (epoch {ep})", scenario=sid))
         return out
